@@ -3,6 +3,9 @@ use crate::Node;
 use by_address::ByAddress;
 use logaddexp::LogAddExp;
 use portable_atomic::AtomicF64;
+#[cfg(feature = "verif")]
+use crate::verif::thread_rng;
+#[cfg(not(feature = "verif"))]
 use rand::thread_rng;
 use rand_distr::{Distribution, WeightedAliasIndex};
 use std::collections::HashMap;
@@ -14,6 +17,10 @@ use std::slice;
 pub struct SampledChance {
     index: WeightedAliasIndex<f64>,
     cached: usize,
+    #[cfg(feature = "verif")]
+    pub(crate) verif_id: usize,
+    #[cfg(feature = "verif")]
+    verif_weights: Vec<f64>,
 }
 
 impl SampledChance {
@@ -22,6 +29,10 @@ impl SampledChance {
         SampledChance {
             index: WeightedAliasIndex::new(probs.to_vec()).unwrap(),
             cached: 0,
+            #[cfg(feature = "verif")]
+            verif_id: usize::MAX,
+            #[cfg(feature = "verif")]
+            verif_weights: probs.to_vec(),
         }
     }
 
@@ -30,7 +41,11 @@ impl SampledChance {
     /// This will return the same value on successive calls until reset is called
     pub fn sample(&mut self) -> usize {
         if self.cached == 0 {
+            #[cfg(feature = "verif")]
+            crate::verif::site(crate::verif::CHANCE, self.verif_id, &self.verif_weights);
             let res = self.index.sample(&mut thread_rng());
+            #[cfg(feature = "verif")]
+            let res = crate::verif::drawn(res);
             self.cached = res + 1;
             res
         } else {
